@@ -63,7 +63,9 @@ def show_prob(p):
         return "[ " + "".join(show_prob(x) + " " for x in p) + "]"
     if isinstance(p, tuple):
         return "( " + "".join(show_prob(x) + " " for x in p) + ")"
-    return str(int(p))
+    if isinstance(p, bool) or not isinstance(p, int):
+        return "?" + type(p).__name__            # not a value of the modelled domain: shows up as a mismatch
+    return str(p)
 
 
 def dis_list(d):
@@ -440,7 +442,7 @@ def gen_run_cfg(rng, pattern=None, thorough=False):
     }
 
 
-def walk_problem(rng, spec, steps):
+def walk_problem(rng, spec, steps, errs=None):
     """a problem reachable from the initial one by a few real neighbour steps (or None
     when the pattern raises)."""
     from cspuz.generator import build_neighbor_generator
@@ -454,7 +456,9 @@ def walk_problem(rng, spec, steps):
                 break
             p = rng.choice(ns)
         return p
-    except Exception:
+    except Exception as ex:
+        if errs is not None:
+            errs.append("%s: %s" % (type(ex).__name__, ex))
         return None
 
 
@@ -735,6 +739,8 @@ def check_grid_step(spec, g, g2):
     _, h, w, ch, d, dis, sym, mv, _ = spec
     D = dis_list(dis)
     bad = []
+    if not isinstance(g2, list) or not all(isinstance(r, list) and all(type(v) is int for v in r) for r in g2):
+        return ["grid replaced by %s" % type(g2).__name__]
     if len(g2) != len(g) or any(len(r2) != len(r) for r, r2 in zip(g, g2)):
         return ["shape changed"]
     if len(g) != h or any(len(r) != w for r in g):
@@ -756,9 +762,9 @@ def check_local(spec, p, q):
     """q must differ from p inside exactly one builder position."""
     k = spec[0]
     if k == "C":
-        if q == p:
+        if type(q) is int and q == p:
             return 0, []
-        if q not in spec[1]:
+        if type(q) is not int or q not in spec[1]:
             return 1, ["Choice value %r not in the choice set" % (q,)]
         return 1, []
     if k == "A":
@@ -779,7 +785,20 @@ def check_local(spec, p, q):
     return 0, []
 
 
+def call_valid(ctx, key, detail, f, *args):
+    """call an srandom function on arguments inside its documented domain: an exception there
+    is itself a failure of the property (the value is not in the promised range)."""
+    try:
+        return True, f(*args)
+    except Exception as ex:  # noqa
+        d = dict(detail)
+        d["exception"] = "%s: %s" % (type(ex).__name__, ex)
+        ctx.violation(key, "an srandom function raised on arguments inside its domain", d)
+        return False, None
+
+
 def search_prng(ctx):
+    import itertools
     import cspuz.generator.srandom as sr
     rng = ctx.rng
     n = 3000 if (ctx.thorough or ctx.deep) else 800
@@ -790,8 +809,10 @@ def search_prng(ctx):
         seed = rng.randint(0, 10 ** 6)
         seed_prng(seed)
         for j in range(5):
-            v = sr.randint(a, b)
+            ok, v = call_valid(ctx, "randint-raises", {"seed": seed, "a": a, "b": b, "draw_index": j}, sr.randint, a, b)
             ctx.prop_case("randint-range", (seed, a, b, j))
+            if not ok:
+                break
             if not (a <= v <= b):
                 ctx.violation("randint-out-of-range", "srandom.randint(a, b) with the deterministic PRNG returned a value outside [a, b]",
                               {"seed": seed, "a": a, "b": b, "draw_index": j, "value": v})
@@ -799,8 +820,10 @@ def search_prng(ctx):
     for (a, b, draws) in [(0, 2, 6000), (5, 9, 10000), (-3, 3, 14000), (1, 6, 12000), (-10, -7, 8000), (7, 7, 100)]:
         seed_prng(4242 + a)
         cnt = {}
-        for _ in range(draws):
-            v = sr.randint(a, b)
+        for j in range(draws):
+            ok, v = call_valid(ctx, "randint-raises", {"seed": 4242 + a, "a": a, "b": b, "draw_index": j}, sr.randint, a, b)
+            if not ok:
+                break
             cnt[v] = cnt.get(v, 0) + 1
         ctx.prop_case("randint-support", (a, b))
         w = b - a + 1
@@ -808,44 +831,54 @@ def search_prng(ctx):
         if set(cnt) != set(range(a, b + 1)):
             ctx.violation("randint-out-of-range" if any(not (a <= v <= b) for v in cnt) else "randint-support",
                           "the values drawn by randint(a, b) are not exactly the integers of [a, b]",
-                          {"a": a, "b": b, "values_seen": sorted(cnt)})
+                          {"seed": 4242 + a, "a": a, "b": b, "draws": draws, "values_seen": sorted(cnt)})
         elif w > 1 and max(abs(c - exp) for c in cnt.values()) > 6 * (exp ** 0.5):
             ctx.violation("randint-not-uniform", "frequencies of randint(a, b) deviate by more than 6 sigma",
-                          {"a": a, "b": b, "counts": cnt})
+                          {"seed": 4242 + a, "a": a, "b": b, "draws": draws, "counts": cnt})
     # a wide domain (w = 3 * 2^30): without the rejection step the lower third would be hit twice as often
     seed_prng(31337)
     w3 = 3 * (1 << 30)
-    low = sum(1 for _ in range(6000) if sr.randint(-5, w3 - 6) < (1 << 30) - 5)
+    low = 0
+    for j in range(6000):
+        ok, v = call_valid(ctx, "randint-raises", {"seed": 31337, "a": -5, "b": w3 - 6, "draw_index": j}, sr.randint, -5, w3 - 6)
+        if not ok:
+            break
+        low += v < (1 << 30) - 5
     ctx.prop_case("randint-wide-uniform", w3)
     if abs(low - 2000) > 6 * (6000 * (1 / 3) * (2 / 3)) ** 0.5:
         ctx.violation("randint-not-uniform", "randint over a domain of 3*2^30 values hits the lowest third with frequency far from 1/3",
-                      {"a": -5, "b": w3 - 6, "draws": 6000, "in_lowest_third": low})
+                      {"seed": 31337, "a": -5, "b": w3 - 6, "draws": 6000, "in_lowest_third": low})
     # choice: every candidate, nothing else; shuffle: every permutation of 3 and 4 elements; random in [0, 1)
     seed_prng(99)
     cand = ["a", "b", "c", "d", "e"]
     cnt = {}
-    for _ in range(5000):
-        v = sr.choice(cand)
+    for j in range(5000):
+        ok, v = call_valid(ctx, "choice-raises", {"seed": 99, "candidates": cand, "draw_index": j}, sr.choice, cand)
+        if not ok:
+            break
         cnt[v] = cnt.get(v, 0) + 1
     ctx.prop_case("choice-support", 5)
     if set(cnt) != set(cand) or max(abs(c - 1000) for c in cnt.values()) > 6 * 1000 ** 0.5:
-        ctx.violation("choice-not-uniform", "choice does not cover the candidates uniformly", {"counts": cnt})
-    import itertools
+        ctx.violation("choice-not-uniform", "choice does not cover the candidates uniformly", {"seed": 99, "counts": cnt})
     for k in (3, 4):
         cnt = {}
         N = 2000 * (6 if k == 3 else 24)
-        for _ in range(N):
+        for j in range(N):
             l = list(range(k))
-            sr.shuffle(l)
+            ok, _ = call_valid(ctx, "shuffle-raises", {"seed": 99, "n": k, "draw_index": j}, sr.shuffle, l)
+            if not ok:
+                break
             cnt[tuple(l)] = cnt.get(tuple(l), 0) + 1
         ctx.prop_case("shuffle-support", k)
         perms = set(itertools.permutations(range(k)))
         if set(cnt) != perms or max(abs(c - 2000) for c in cnt.values()) > 6 * 2000 ** 0.5:
             ctx.violation("shuffle-not-uniform", "shuffle does not produce every permutation uniformly",
-                          {"n": k, "counts": {repr(p): c for p, c in cnt.items()}})
+                          {"seed": 99, "n": k, "counts": {repr(p): c for p, c in cnt.items()}})
     lo, hi = 1.0, 0.0
-    for _ in range(20000):
-        r = sr.random()
+    for j in range(20000):
+        ok, r = call_valid(ctx, "random-raises", {"seed": 99, "draw_index": j}, sr.random)
+        if not ok:
+            break
         lo, hi = min(lo, r), max(hi, r)
         if not (0.0 <= r < 1.0):
             ctx.violation("random-out-of-range", "random() outside [0, 1)", {"value": r})
@@ -861,20 +894,29 @@ def search_neighbours(ctx):
     extra = 600 if (ctx.thorough or ctx.deep) else 150
     for _ in range(extra):
         spec = gen_pattern(rng, allow_bad=False)
-        p = walk_problem(rng, spec, rng.randint(0, 8))
+        errs = []
+        p = walk_problem(rng, spec, rng.randint(0, 8), errs)
         if p is not None:
             cases.append((spec, p, rng.randint(0, 10 ** 6)))
+        else:
+            ctx.violation("generator-raises", "the neighbour generator raised on a well-formed pattern and a problem it produced itself",
+                          {"pattern": spec, "exception": errs[:1]})
     for (spec, p, seed) in cases:
+        p0 = copy.deepcopy(p)
         try:
             _, gen = build_neighbor_generator(build_pattern(spec))
             seed_prng(seed)
-            p0 = copy.deepcopy(p)
             ns = list(gen(p))
-        except Exception:
+        except Exception as ex:
+            ctx.violation("generator-raises", "the neighbour generator raised on a well-formed pattern and a problem it produced itself",
+                          {"pattern": spec, "current": p0, "seed": seed, "exception": "%s: %s" % (type(ex).__name__, ex)})
             continue
         ctx.prop_case("neighbour-locality", (json.dumps(spec), show_prob(p0), seed))
         for q in ns:
-            n, bad = check_local(spec, p0, q)
+            try:
+                n, bad = check_local(spec, p0, q)
+            except Exception as ex:      # a neighbour so malformed that the oracle cannot read it
+                n, bad = 1, ["malformed neighbour %s" % type(ex).__name__]
             if n > 1:
                 bad = bad + ["%d builder positions changed" % n]
             if bad:
@@ -897,14 +939,23 @@ def search_candidates(ctx):
             spec[8] = None
         _, h, w, ch, d, dis, sym, mv, _ = spec
         D = dis_list(dis)
-        cur = walk_problem(rng, spec, rng.randint(0, 10))
+        errs = []
+        cur = walk_problem(rng, spec, rng.randint(0, 10), errs)
         if cur is None:
+            ctx.violation("generator-raises", "the neighbour generator raised on a well-formed pattern and a problem it produced itself",
+                          {"pattern": spec, "exception": errs[:1]})
             continue
         b = build_pattern(spec)
         seed = rng.randint(0, 10 ** 6)
         seed_prng(seed)
         cur0 = copy.deepcopy(cur)
-        cands = b.candidates(cur)
+        try:
+            cands = b.candidates(cur)
+            [b.copy_with_update(cur, u) for u in cands]
+        except Exception as ex:
+            ctx.violation("generator-raises", "candidates()/copy_with_update() raised on a grid the builder produced itself",
+                          {"builder": spec, "current": cur0, "seed": seed, "exception": "%s: %s" % (type(ex).__name__, ex)})
+            continue
         ctx.prop_case("array-candidates", (json.dumps(spec), show_prob(cur0), seed))
         D_ok = (0, 0) not in D and all((-dy, -dx) in D for dy, dx in D)
         pre_sym = nd_symmetric(cur0, h, w, d)
@@ -1013,11 +1064,15 @@ def search_segmentation(ctx):
 
 
 def search(ctx):
-    search_prng(ctx)
-    search_neighbours(ctx)
-    search_candidates(ctx)
-    search_runs(ctx)
-    search_segmentation(ctx)
+    errors = []
+    for part in (search_prng, search_neighbours, search_candidates, search_runs, search_segmentation):
+        try:
+            part(ctx)
+        except Exception:                      # keep searching with the other oracles, report at the end
+            import traceback
+            errors.append(traceback.format_exc()[-1500:])
+    if errors:
+        raise RuntimeError("search parts failed:\n" + "\n".join(errors))
 
 
 def replay(ctx, rp):
